@@ -85,6 +85,7 @@ type lfGate struct {
 	hook  string // "pre" | "recv" | "post"
 	msg   string
 	seq   int
+	risky bool // the hook continues with an action that may take a stop lock
 	ch    chan struct{}
 }
 
@@ -127,6 +128,8 @@ type lfWorld struct {
 	gatePolicy func(a *lfActor, hook, msg string) bool
 	// postExitHook runs at the end of PostStop (before the exit is logged) on the stopping goroutine.
 	postExitHook func(a *lfActor)
+	// afterStep runs after every fired event (after quiescence), before the invariants.
+	afterStep func()
 	// pids of interest (actors whose stop lock matters), maintained by the scenario.
 	track map[string]*PID
 }
@@ -173,13 +176,16 @@ func (w *lfWorld) addViol(v ...vsched.Violation) {
 }
 
 // wait blocks on a fresh gate when the policy says so.
-func (w *lfWorld) wait(a *lfActor, hook, msg string) {
-	if w.gatePolicy == nil || !w.gatePolicy(a, hook, msg) {
+func (w *lfWorld) wait(a *lfActor, hook, msg string, risky bool) {
+	w.mu.Lock()
+	gp := w.gatePolicy
+	w.mu.Unlock()
+	if gp == nil || !gp(a, hook, msg) {
 		return
 	}
 	w.mu.Lock()
 	w.seq++
-	g := &lfGate{actor: a, hook: hook, msg: msg, seq: w.seq, ch: make(chan struct{})}
+	g := &lfGate{actor: a, hook: hook, msg: msg, seq: w.seq, risky: risky, ch: make(chan struct{})}
 	g.label = fmt.Sprintf("%s#%d.%s", a.name, a.inst, hook)
 	if msg != "" {
 		g.label += "(" + msg + ")"
@@ -241,7 +247,7 @@ func (a *lfActor) PreStart(*Context) error {
 	inc := a.inc
 	w.mu.Unlock()
 	w.logEv(lfEv{kind: lfPreEnter, actor: a.name, inst: a.inst, inc: inc})
-	w.wait(a, "pre", "")
+	w.wait(a, "pre", "", false)
 	w.logEv(lfEv{kind: lfPreExit, actor: a.name, inst: a.inst, inc: inc})
 	return a.preErr
 }
@@ -269,7 +275,7 @@ func (a *lfActor) Receive(ctx *ReceiveContext) {
 	}
 	inc := a.curInc()
 	w.logEv(lfEv{kind: lfRecvEnter, actor: a.name, inst: a.inst, inc: inc, msg: label})
-	w.wait(a, "recv", label)
+	w.wait(a, "recv", label, m != nil && m.act != nil)
 	if m != nil && m.act != nil {
 		m.act(a, ctx)
 	}
@@ -280,7 +286,7 @@ func (a *lfActor) PostStop(*Context) error {
 	w := a.w
 	inc := a.curInc()
 	w.logEv(lfEv{kind: lfPostEnter, actor: a.name, inst: a.inst, inc: inc})
-	w.wait(a, "post", "")
+	w.wait(a, "post", "", false)
 	if w.postExitHook != nil {
 		w.postExitHook(a)
 	}
@@ -432,8 +438,11 @@ func (w *lfWorld) gateSafe(g *lfGate) bool {
 	if !w.anyLockHeld() {
 		return true
 	}
-	// some stop lock is held: only allow when no control message is pending anywhere among the
-	// tracked actors (conservative).
+	// some stop lock is held: only allow when the handler has no lock-taking action and no control
+	// message is pending anywhere among the tracked actors (conservative).
+	if g.risky {
+		return false
+	}
 	for _, p := range w.trackedPIDs() {
 		if p != nil && !p.systemMailbox.IsEmpty() {
 			return false
@@ -504,6 +513,9 @@ func (w *lfWorld) loop(c *vsched.Chooser, maxSteps int, extra func() []lfEvent, 
 		}
 		evs[i].fire()
 		vsched.Settle()
+		if w.afterStep != nil {
+			w.afterStep()
+		}
 		if inv != nil {
 			w.addViol(inv()...)
 		}
